@@ -26,12 +26,13 @@ RULE = (
     "lie below a materialization whose rows are held in a collection of their own (gathered by the materialization "
     "or by the sort / deduplication right below it), since those rows are cached on the node by the first execute(). "
     "  Between the passes and the second execute() an iterator over the result is abandoned after 0-5 rows (a consumer that stops early); the full pass that follows must return the same rows and start at most one iteration per lazy occurrence. "
+    "  In 30 % of the cases one evaluation is made to FAIL (a leaf stops delivering rows at a random position) - either before everything else or at the end; all evaluations after it must behave and yield exactly as if it had not happened. "
 )
 ASSUMPTIONS = [
     "only iteration starts observable through the leaf payloads are judged (the engine's internal iterables are not hooked)",
     "reference model vmon/model.py for the row content",
 ]
-MIN_OBS = {"second_executes_checked": 500, "passes_after_abandoned_iterator": 500, "lazy_only_programs": 300, "eager_programs": 300, "passes_checked": 2000, "leaf_iteration_starts_observed": 2000}
+MIN_OBS = {"second_executes_checked": 500, "faulted_evaluations": 300, "passes_after_abandoned_iterator": 500, "lazy_only_programs": 300, "eager_programs": 300, "passes_checked": 2000, "leaf_iteration_starts_observed": 2000}
 EAGER = ("sort", "dedup", "mat")
 
 
@@ -51,6 +52,9 @@ def gen_case(rng, tier):
     case = gen.case_from(g, g.tree())
     case["lazy_only"] = lazy_only
     case["abandon_after"] = rng.choice([0, 1, 1, 2, 3, 5])
+    if rng.random() < 0.3:
+        # one evaluation in which a leaf stops delivering rows half-way (before anything else, or at the end)
+        case["fault"] = {"leaf": rng.randint(0, 7), "at": rng.randint(0, 8), "first": rng.random() < 0.5}
     return case
 
 
@@ -159,6 +163,33 @@ def run_case(case):
     s0 = starts()
     if any(s0.values()):
         out["violations"].append({"kind": "leaf_iterated_while_building", "detail": f"{label}: {s0}"})
+
+    def faulted_attempt():
+        """execute() + one pass while one leaf fails half-way; returns True if the fault fired."""
+        from ..dbx import InjectedFault
+
+        fl = case["fault"]
+        names = sorted(b.leaf_payloads)
+        pl = b.leaf_payloads[names[fl["leaf"] % len(names)]]
+        if not hasattr(pl, "fail_at"):
+            return False
+        pl.fail_at = min(fl["at"], len(pl))
+        try:
+            names_rows(rel.engine.execute(rel))
+            return False
+        except InjectedFault:
+            c["faulted_evaluations"] = c.get("faulted_evaluations", 0) + 1
+            return True
+        finally:
+            pl.fail_at = None
+
+    if case.get("fault") and case["fault"]["first"]:
+        try:
+            faulted_attempt()
+        except Exception as exc:  # noqa: BLE001
+            out["violations"].append({"kind": "execute_raised", "detail": f"{label} (while a leaf was failing): {exc_str(exc)}"})
+            return out
+        s0 = starts()  # what the failed attempt read does not count; everything below is judged as usual
     try:
         rows = rel.engine.execute(rel)
     except Exception as exc:  # noqa: BLE001
@@ -230,6 +261,16 @@ def run_case(case):
             out["violations"].append({"kind": "second_execute_reevaluated_materialized_input", "detail": f"{label}: a second execute()+pass started {n} iterations of {name}, at most {occ2.get(name, 0)} allowed (the rest lies below a materialization whose rows are cached); tree {short(rel, 300)}"})
     if again != passes[0]:
         out["violations"].append({"kind": "second_execute_differs", "detail": f"{label}: {short(again, 200)} vs {short(passes[0], 200)}"})
+    if case.get("fault") and not case["fault"]["first"]:
+        try:
+            fired = faulted_attempt()
+            after_fault = names_rows(rel.engine.execute(rel))
+        except Exception as exc:  # noqa: BLE001
+            out["violations"].append({"kind": "execute_raised", "detail": f"{label} (during / after a failing leaf): {exc_str(exc)}"})
+            return out
+        if after_fault != passes[0]:
+            out["violations"].append({"kind": "rows_differ_after_failed_evaluation", "detail": f"{label}: {short(after_fault, 200)} vs {short(passes[0], 200)} (fault fired: {fired})"})
+        prev = starts()
     if passes[0] != want.rows:
         out["violations"].append({"kind": "rows_differ", "detail": f"{label}: {short(passes[0], 250)} vs {short(want.rows, 250)}"})
     if passes[1] != passes[0] or passes[2] != passes[0]:
